@@ -250,6 +250,15 @@ class Table(Vector):
 			return (0, n_cols)
 		return (n_rows,) + self[0].shape
 
+	def fingerprint(self) -> int:
+		"""Fingerprint of the current contents of all columns.
+
+		Columns are live, independently writable objects, so nothing is memoised at
+		the table level: the columns' own (cached) fingerprints are combined on
+		every call.
+		"""
+		return self._compute_fingerprint_full()
+
 	def _build_column_map(self):
 		"""Build mapping from sanitized column names to column indices.
 		
